@@ -213,27 +213,35 @@ def run(ctx, prop):
     total = sum(len(t['lines']) - 1 for t in traces if t['tid'] not in bad)
     if len(verdicts) != total:
         raise tlc.MachineryError('trace spec judged %d of %d lines' % (len(verdicts), total))
-    extra_viol = []
-    if prop == 'C08' and getattr(ctx, 'l2raw', None):
-        # master-level observation point of C08: the state record in /placement/<server>
-        from . import master_common as mcm
-        v2, st2 = mcm.validate(ctx.l2raw)
-        ctx.cmds.append(st2.get('cmd', ''))
-        by = {t['tid']: t for t in ctx.l2raw}
-        for v in v2:
-            if 'C08.stateRecord' in v['fail']:
-                t = by[v['tid']]
-                extra_viol.append(dict(
-                    clause='C08.stateRecord', signature='C08.stateRecord',
-                    what='after %s at step %d of l2 %s' % (t['lines'][v['i']]['ev'], v['i'], t['tid']),
-                    replay_payload=dict(kind='sched_l2', property=prop, clause='C08.stateRecord',
-                                        scenario='base', history=t['history'][:v['i']], failed_step=v['i'])))
-    ctx.extra_violations = extra_viol
+    ctx.extra_violations = _c08_master(ctx, prop)
     rc = judge(ctx, prop, [t for t in traces if t['tid'] not in bad], verdicts)
     if unjudged and rc == 0:
         raise tlc.MachineryError('%d recorded traces could not be evaluated by the trace spec '
                                  '(first: %s)' % (len(unjudged), unjudged[0]['tid']))
     return rc
+
+
+def _c08_master(ctx, prop):
+    """Master-level observation points of C08 (MasterTrace.tla): the state record in
+    /placement/<server>, and what a new master keeps on a server that is down."""
+    out = []
+    if prop != 'C08' or not getattr(ctx, 'l2raw', None):
+        return out
+    from . import master_common as mcm
+    v2, st2 = mcm.validate(ctx.l2raw)
+    ctx.cmds.append(st2.get('cmd', ''))
+    by = {t['tid']: t for t in ctx.l2raw}
+    for v in v2:
+        for f in sorted(v['fail']):
+            if f.startswith('C08.'):
+                t = by[v['tid']]
+                out.append(dict(
+                    clause=f, signature=f,
+                    what='after %s at step %d of l2 %s' % (t['lines'][v['i']]['ev'], v['i'], t['tid']),
+                    replay_payload=dict(kind='sched_l2', property=prop, clause=f,
+                                        scenario='l2-' + t['tid'].split(':')[0],
+                                        history=t['history'][:v['i']], failed_step=v['i'])))
+    return out
 
 
 def _reboot(ctx):
@@ -342,8 +350,13 @@ def replay(ctx, prop, path):
     if payload.get('kind') == 'sched_l2':
         scn_name = payload.get('scenario', 'base')
         scn_name = scn_name[3:] if scn_name.startswith('l2-') else scn_name
+        if payload.get('clause', '') in ('C08.stateRecord', 'C08.keepRestart'):
+            # judged after the step that follows the recorded prefix: a restart for keepRestart
+            h = [tuple(x) for x in payload['history']]
+            h.append(('Restart', []) if payload['clause'] == 'C08.keepRestart' else ('Cycle', []))
         traces = _l2_traces(ctx, prop, [h], scn_name if scn_name in ('base', 'big') else 'base')
         verdicts, _ = sc.validate(traces)
+        ctx.extra_violations = _c08_master(ctx, prop)
         return judge(ctx, prop, traces, verdicts)
     traces = sc.record(payload['scenario'], [h])
     verdicts, _ = sc.validate(traces)
